@@ -5,6 +5,7 @@ package main
 
 import (
 	"fmt"
+	"go/constant"
 	"go/token"
 	"go/types"
 	"strings"
@@ -1056,9 +1057,37 @@ func ruleP16AmPm(p *Prog, r *Report) {
 			}
 		}
 	}
+	pairStruct := func(t types.Type) bool {
+		st, ok := t.Underlying().(*types.Struct)
+		return ok && st.NumFields() == 2 && isIntType(st.Field(0).Type()) && isStringType(st.Field(1).Type())
+	}
+	if pr == nil {
+		// the pair handed back as one small struct {hour int; suffix string}
+		for _, a := range ts.AnonFuncs {
+			if a.Signature.Results().Len() == 1 && pairStruct(a.Signature.Results().At(0).Type()) {
+				pr = a
+			}
+		}
+	}
 	if pr == nil {
 		r.undecided(rule, "print", p.pos(ts.Pos()), "the (hour, suffix) selection of ToString is not a local function literal")
 		return
+	}
+	retPart := func(ret *ssa.Return, i int) ssa.Value {
+		if len(ret.Results) == 1 {
+			if v, ok := compositeLitField(ret.Results[0], i); ok && v != nil {
+				return v
+			}
+			if v, ok := compositeLitField(ret.Results[0], i); ok && v == nil {
+				// field left at its zero value
+				if i == 0 {
+					return ssa.NewConst(constant.MakeInt64(0), types.Typ[types.Int])
+				}
+				return emptyStringConst
+			}
+			return ret.Results[0]
+		}
+		return retResult(ret, i)
 	}
 	type row struct {
 		delta int64 // printed hour = hour + delta (when sym) or constant
@@ -1145,8 +1174,8 @@ func ruleP16AmPm(p *Prog, r *Report) {
 			continue
 		}
 		seen[cls] = true
-		sfx, _ := constString(retResult(ret, 1))
-		pl := polyOf(retResult(ret, 0))
+		sfx, _ := constString(retPart(ret, 1))
+		pl := polyOf(retPart(ret, 0))
 		good := sfx == w.sfx
 		if w.sym {
 			good = good && len(pl.Terms) == 1 && pl.C == w.delta
